@@ -2,6 +2,15 @@
 """Writes MANIFEST.json. The list DONE names the properties whose checks exist."""
 import json, subprocess
 DONE = {
+ "C04": ("exploration", "Rust-side equality monitor over a 46-type Serde family through four serialization routes",
+         "Each of 46 concrete types (every Serde data-model category plus the shape-ambiguous nestings) has a recursive generator; values go through to_value/from_value (NaN and infinities included, compared by bits) and through text with the default printer/parser via str, bytes and writer/reader (finite floats, C05 rule) and must come back equal on the Rust side.",
+         "trusted: serde_derive; per-type equality functions", "4/C04"),
+ "C14": ("exploration", "documented-shape differential: to_value(x) vs a hand-written shape function; alternative and corrupted encodings at every Seq/Tuple position",
+         "For each type of the family a shape function written from the crate documentation yields an annotated tree; its canonical rendering must equal to_value(x) structurally. For sampled Seq/Tuple positions the documented alternative encoding (vector for sequence, proper list for tuple) must deserialize to x, and an improper list or a wrong kind in that position must fail with a Data-category error without panicking.",
+         "trusted: the shape functions' transcription of the documentation", "4/C14"),
+ "C18": ("exploration", "totality monitor: catch_unwind + error-category check + serialize/deserialize fixed point on every accepted value",
+         "Arbitrary values and near misses (1-3 structural mutations of a valid encoding) are offered to from_value::<T> for every type of the family: a panic inside the library is a violation, an Err must be Data-category, and an accepted x must satisfy from_value(to_value(x)) == x (accepted alternative encodings are counted as normalised).",
+         "trusted: panic classification by source location", "4/C18"),
  "C13": ("exploration", "parse/print/parse/print fixed-point monitor over accepted texts with the mirror printer options",
          "Arbitrary generated text (token soup, lenient symbol constituents, alternative spellings, mutated printer output) is offered to the parser under option sets drawn from all 1536; every accepted text is printed with the corresponding printer options, re-read with the same parser (must equal the folded value, floats by the C05 rule) and, when all floats are in the reader's exact domain, printed again (must be the same text). A lenient-token corpus is additionally crossed with all 1536 option sets. Both feature builds; at least 10% of inputs must be accepted.",
          "trusted: mirror(Q) as the meaning of 'corresponding printer options'", "4/C13"),
